@@ -271,6 +271,28 @@ def run(F, R, tier):
         # single writer: the map is a local of the actor task
         R.check(any(l.get("name") == "failed_authenticate_summary" for l in B.locals), "C11.R4", "C11.R4:%s:map-is-task-local" % act["id"], "-",
                 "failed_authenticate_summary is a local of the single actor task (single writer => no lost update)")
+    # the denial must be *delivered* to the actor: reliable awaited send of the right message, response awaited
+    wf = F.body_of(ASW + "AgentStatusSharedState::add_one_failed_connection_summary")
+    if not wf:
+        R.fail("C11.R4", "C11.R4:anchor-missing:add_one_failed_connection_summary", "-", "anchor-missing=AgentStatusSharedState::add_one_failed_connection_summary")
+    else:
+        R.touched(wf["id"])
+        Bw = mir.Body(wf, F)
+        sends = Bw.calls_named("mpsc::Sender::send")
+        lossy = [q.base_name(c[2] or c[1]).rsplit("::", 1)[-1] for c in Bw.calls
+                 if q.ends(c[2] or c[1] or "", "try_send", "send_timeout", "try_reserve", "try_reserve_owned", "blocking_send")]
+        variants = set()
+        for b in Bw.blocks:
+            for s in b["stmts"]:
+                if s["k"] == "assign" and s["rv"]["k"] == "agg" and s["rv"].get("adt") == ASW + "AgentStatusAction":
+                    variants.add(s["rv"]["variant"])
+        awaited = len(sends) == 1 and q.immediate_await(Bw, sends[0][0]) is not None
+        polls = [c for c in Bw.calls if c[1] == mir.POLL and "oneshot::Receiver" in str((c[3]["f"].get("fnargs") or [{}])[0].get("ty", ""))]
+        R.check(awaited and not lossy and variants == {"AddOneFailedConnectionSummary"} and len(polls) == 1, "C11.R4",
+                "C11.R4:%s:reliable-delivery" % wf["id"], "%s:%s" % (wf["file"], wf["line"]),
+                "the failed summary is enqueued with mpsc::Sender::send(..).await (back-pressure, never dropped) and the actor's reply is awaited",
+                "the failed summary is enqueued with %s (awaited send: %s; reply awaited: %d): when the actor's queue is full the denial is "
+                "silently lost from the published summary" % (lossy or "?", awaited, len(polls)))
     ks = F.fns.get(AP + "proxy::proxy_summary::ProxySummary::to_key_string")
     if not ks:
         R.fail("C11.R4", "C11.R4:anchor-missing:to_key_string", "-", "anchor-missing=ProxySummary::to_key_string")
